@@ -266,6 +266,51 @@ pub fn meta_receivers() -> BTreeMap<&'static str, RecvDesc> {
             f("p", opt(pm(1301 + 10))),
         ]),
     ));
+    add(recv(
+        "S14",
+        Struct(vec![
+            f("mw", pm(5101)).multiple().with(),
+            f("mm", pm(5102)).multiple().map(),
+            f("ma", pm(5103)).multiple().and_then(),
+            f("wm", pm(5104)).with().map(),
+            f("wd", pm(5105)).with().dfn(5105),
+            f("ad", pm(5106)).and_then().dfn(5106),
+            f("rw", pm(5107)).named("rn").with().dflt(),
+            f("md", pm(5108)).multiple().dflt(),
+            f("mrd", pm(5109)).multiple().named("mr").dfn(5109).and_then(),
+            f("wo", opt(pm(5110))).with(),
+            f("rmap", pm(5111)).named("ro").dflt().map(),
+        ]),
+    ));
+    add(RecvDesc {
+        allow_unknown: true,
+        container_default: Some(ContainerDefault::Trait(5200)),
+        container_post: Some((Post::AndThen, 5210)),
+        ..recv("S15", Struct(vec![f("a", pm(5201)), f("m", pm(5202)).multiple(), f("rest", r("S1")).flatten(), f("sk", pm(5203)).skip()]))
+    });
+    add(RecvDesc { allow_unknown: true, ..recv("S16", Struct(vec![f("a", pm(5251)), f("rest", r("S1")).flatten()])) });
+    add(recv(
+        "E4",
+        Enum(vec![
+            VariantDesc { word: true, ..v("TheDefault", "thedefault", VariantKind::Unit) },
+            v("Newt", "nt", VariantKind::Newtype(opt(pm(5301)))),
+            VariantDesc { skip: true, ..v("Gone", "gone", VariantKind::Newtype(pm(5302))) },
+            v(
+                "StructV",
+                "structv",
+                VariantKind::Struct {
+                    fields: vec![
+                        f("m", pm(5303)).multiple(),
+                        f("d", pm(5304)).dflt(),
+                        f("w", pm(5305)).with(),
+                        f("t", pm(5306)).and_then(),
+                        f("r", pm(5307)).named("rr").dfn(5307),
+                    ],
+                    allow_unknown: false,
+                },
+            ),
+        ]),
+    ));
     add(recv("N1", Struct(vec![f("inner", r("S1")), f("opt", opt(r("S1"))), f("d", r("S5")).dflt()])));
     add(recv("N2", Struct(vec![f("n1", r("N1")), f("p", pm(1301))])));
     add(recv("Rec", Struct(vec![f("child", opt(bx(r("Rec")))), f("leaf", opt(pm(1401)))])));
